@@ -10,7 +10,7 @@ h = c.harness("c05")
 if h:
     # the harness is its own orchestrator: worker processes, watchdogs, three fresh
     # confirmation runs per suspected hang / leak / slow / over-budget case
-    rc, out = c.run([h, "-dir", c.work], timeout=3000 if c.tier == "thorough" else 600)
+    rc, out = c.run([h, "-dir", c.work], timeout=3600 if c.tier == "thorough" else 1800)
     c.log.write(out)
     if rc != 0:
         c.tie_broken("harness c05 crashed", out[-2000:])
@@ -62,7 +62,7 @@ c.finish(
         "watchdog, runtime.MemStats and runtime.NumGoroutine readings of harness/c05",
     ],
     partial=[
-        "MEASURED, not proved: no theorem speaks about goroutines, allocation or seconds. The harness measures wall time (budget 3 s + 0.15 ms/byte, hang watchdog 10 s), TotalAlloc (budget 512 MiB + 16 KiB/byte) and runtime.NumGoroutine before/after every case and re-runs a suspect three times in fresh processes.",
+        "MEASURED, not proved: no theorem speaks about goroutines, allocation or seconds. The harness measures the CPU time of the worker process per case (budget 3 s + 0.15 ms/byte; a case is given up after twice that + 3 s of CPU time; the wall clock is only a 90 s guard against a case that blocks without using the CPU, and the worker's 45 s budget only cuts the number of random mutants), TotalAlloc (budget 512 MiB + 16 KiB/byte) and the goroutines before/after every case (waiting on the condition for up to 20 s; a leak is a leftover goroutine that stays parked with none runnable) and re-runs a suspect three times in fresh processes, one after the other.",
         "objstm_reader_leak_refuted: on the code BEFORE F55 getObjStm leaves the decoded reader open on its error paths (proved on the variant close_on_error = false); the code as it is satisfies objstm_reader_ownership / objstm_get_closes_reader. The tie of the ownership component is the goroutine accounting: the J cases are also run with the object stream behind /DCTDecode (shaped JPEG that decodes exactly to the index text), where an unclosed reader is a leaked producer goroutine",
         "objstm_get_reentry_refuted: a variant of Reader.get that fetches the dictionary entries of an object stream with canObjStm = true re-enters without bound (proved on the variant model, depflag = true); the code as it is satisfies objstm_get_depth_bounded. The model abstracts /Length, /N, /First, /Extends resolution into the same dependency list as /Filter and /DecodeParms",
         "scan_bytes_spin_refuted: on the code BEFORE the F16 repair ScanBytes spins for every fuel once the source error is latched and the buffer consumed (proved on the variant model scan_bytes_prefix); the code as it is now satisfies scan_bytes_total",
